@@ -81,7 +81,7 @@ def classify_failure(h, res, prop, known):
 def work(h, prop, tier, known):
     d = HARNESSES[h]
     r = kanirun.run_harness(h, d["features"], d.get("loops"), d.get("timeout", 900) * (3 if tier == "thorough" else 1),
-                            d.get("mem_gb", 14), keep=True)
+                            d.get("mem_gb", 14), keep=True, optional_witnesses=d.get("opt", ()))
     try:
         if r["verdict"] == "FAIL":
             r["classified"] = classify_failure(h, r, prop, known)
